@@ -250,4 +250,17 @@ theorem construct_dispatch_contained_code (frame : Bytes) (e : Err)
         rfl
       rw [this] at h; cases h; exact .inr rfl
 
+/-- **C14 about the translated `HumidityResponse._parse`**: on ANY payload it yields the reading (unknown for 0) or fails with
+    the IndexError that `Response.construct` maps - nothing else. -/
+theorem humidity_parse_contained_code (p : Bytes) (e : Err) (h : Generated.Codec.parseHumidity p = .error e) : e = indexError := by
+  rw [CodecEq.parseHumidity_eq] at h
+  unfold parseHumidity at h
+  cases hi : Py.idx p 4 with
+  | error e' =>
+    rw [hi] at h
+    simp only [bind, Except.bind, Except.map] at h
+    cases h
+    exact CodecEq.idx_errs hi
+  | ok x => rw [hi] at h; simp [bind, Except.bind, Except.map, pure, Except.pure] at h
+
 end Msmart.Props.C14
